@@ -64,6 +64,9 @@ impl Ctx {
     /// run one protocol operation against the implementation; the op line is on disk
     /// *before* the call so that a crash/hang is attributable to it
     pub fn op(&mut self, line: &str) -> String {
+        // canonical lines only: an empty list used to leave a trailing space (`parse d 0 `); the driver's tokenizer dropped it, but
+        // the theorems about whole operation lines (TIE_codec_exec_…) speak about lines without one
+        let line = line.trim_end();
         // stage-level operations call `pub #[doc(hidden)]` functions of the parser; when the crate no longer exports
         // them the harness is built without the feature `hidden_api` and these operations are not issued at all
         if !cfg!(feature = "hidden_api") {
